@@ -204,7 +204,12 @@ def part_misc(ctx: Ctx) -> Result:
     for fn in ["<string>", "<frozen importlib._bootstrap>", "", "<stdin>", "<ipython-input-1>", "<doctest x[0]>"]:
         res.transitions += 1
         res.evaluations += 1
-        if default_code_filter(t.replace(co_filename=fn, co_name="syn" + str(len(fn)))):
+        try:
+            verdict = default_code_filter(t.replace(co_filename=fn, co_name="syn" + str(len(fn))))
+        except Exception as e:  # noqa: BLE001
+            res.violate(Violation(ID, "exception", "filter-raises", {"part": "P", "file": fn}, f"default_code_filter raised {e!r} for file name {fn!r} (the filter runs outside the tracer's try/except)"))
+            continue
+        if verdict:
             res.violate(Violation(ID, "verdict", "synthetic-filename-admitted", {"part": "P", "file": fn}, f"{fn!r} admitted"))
     user = make_user_tree(ctx.tmp, "misc")
     # paths that only *look* like library paths (string prefixes, dot-dot escapes); the filter needs no existing file
